@@ -429,7 +429,7 @@ pub fn run_writer(prog: &Value, dev: &Dev, t: &mut TraceOut) -> WriteOutcome {
                         match String::from_utf8(x) { Ok(s) => Ok(s), Err(_) => Error::invalid("splice produced invalid UTF-8") }
                     }));
                     let res = res_unit(r);
-                    t.ev(json!({"ev":"w_finalize","custom": true,"text_lb":text_lb,"res":res}));
+                    t.ev(json!({"ev":"w_finalize","custom": true,"text_lb":text_lb,"nonxml": if prog["nonxml"] == true {1} else {0},"res":res}));
                     if note(&res, &mut out) {
                         out.readable = true;
                     }
@@ -446,7 +446,7 @@ pub fn run_writer(prog: &Value, dev: &Dev, t: &mut TraceOut) -> WriteOutcome {
                     _ => w.finalize(),
                 });
                 let res = res_unit(r);
-                t.ev(json!({"ev":"w_finalize","custom": ins.is_some(),"text_lb":text_lb,"res":res}));
+                t.ev(json!({"ev":"w_finalize","custom": ins.is_some(),"text_lb":text_lb,"nonxml": if prog["nonxml"] == true {1} else {0},"res":res}));
                 if note(&res, &mut out) {
                     out.readable = true;
                 }
